@@ -140,7 +140,10 @@ func MetaKV(t *rapid.T, maxLen int) [][2]string {
 		).Draw(t, "metaK")
 		v := rapid.OneOf(
 			rapid.StringMatching(`[ -~]{0,30}`),
-			rapid.SampledFrom([]string{"", " ", ": ", "a: b", "2024-01-01T00:00:00Z", "golang.org/x/tools/gopls", "v1.2.3-pre.1", "é\xff"}),
+			rapid.SampledFrom([]string{"", " ", ": ", "a: b", "2024-01-01T00:00:00Z", "golang.org/x/tools/gopls", "v1.2.3-pre.1", "é\xff",
+				// any byte but a newline and NUL (the header's padding, which ends the metadata) can stand in a value:
+				// control characters, also at its end (where line-oriented readers like to tidy up)
+				"C:\\tools\\gopls\r", "\r", "a\rb", "x\t", "\tx", "trailing \x0b", "\x1b[0m", "\x7f", "\x01"}),
 			rapid.StringMatching(`[a-z]{100,200}`),
 		).Draw(t, "metaV")
 		if seen[k] || strings.Contains(k, ": ") || strings.HasSuffix(k, ":") && strings.HasPrefix(v, " ") {
